@@ -252,6 +252,18 @@ def gen_text(r, closer=None, depth=0):
     return s, e
 
 
+def _pad(r, txt):
+    """a numeric value as authors write it inside its braces or brackets: sometimes with a blank before or after it"""
+    k = r.random()
+    if k < 0.15:
+        return txt + ' '
+    if k < 0.25:
+        return ' ' + txt + ' '
+    if k < 0.3:
+        return ' ' + txt
+    return txt
+
+
 def gen_value(r, typ, closer=None):
     """-> (source text inside the delimiters, expected normal form, feature)"""
     if typ is None:
@@ -271,15 +283,15 @@ def gen_value(r, typ, closer=None):
         txt = str(v)
         if r.random() < 0.2 and v >= 0:
             txt = r.choice(["'%o" % v, '"%X' % v])
-        return txt, ['int', v], typ
+        return _pad(r, txt), ['int', v], typ
     if typ in ('float', 'double'):
-        txt = r.choice(['1.5', '0.25', '-2.5', '3', '.5', '10.0'])
-        return txt, ['float', float(txt)], typ
+        txt = r.choice(['1.5', '0.25', '-2.5', '3', '.5', '10.0', '2', '-3'])
+        return _pad(r, txt), ['float', float(txt)], typ
     if typ in ('dimen', 'length', 'dimension'):
         u = r.choice(['pt', 'cm', 'mm', 'in', 'pc', 'bp'])
         n = r.choice(['1', '1.5', '0.5', '-2', '10'])
         v = Fraction(n) * PT[u]
-        return n + u, ['dimen', v.numerator, v.denominator], typ
+        return _pad(r, n + u), ['dimen', v.numerator, v.denominator], typ
     if typ.startswith('list'):
         delim = typ[5] if '(' in typ else ','
         sub = typ.split(':')[1] if ':' in typ else None
